@@ -1444,3 +1444,54 @@ def wsagree(facts: CppFacts):
     res.samples = [f"skip={sorted(skip)} stop={sorted(stop)}"]
     res.analysed = [FILE]
     return res
+
+
+def digitseen(facts: CppFacts):
+    """R-DIGITSEEN (C06): "malformed numbers are rejected rather than wrapped".  DecodeInteger skips the separator `_`
+    with `continue`, so a token made of a sign, a base prefix and separators only (`0x_`, `-_`) runs through the loop
+    without consuming a digit and would be returned as 0.  Required shape: a boolean that is false before the loop, set
+    to true only at the end of an iteration that consumed a digit (after the last `return false` of the loop body, i.e.
+    not on the `continue` path), and tested (`if (!flag) return false;`) between the loop and the store to `*result`;
+    and the "no leading separator" test compares the position with the first character *after* the sign (an operand
+    that depends on `negative`, or a recorded start position), not with 0."""
+    res = RuleResult("R-DIGITSEEN")
+    TU = "runtime/cpp/emboss_text_util.h"
+    rd = [f for f in facts.functions if f.name == "DecodeInteger"]
+    if not rd:
+        raise AnalysisError("DecodeInteger not found")
+    body = _CM.sub("", rd[0].body)
+    lm = re.search(r"\bfor\s*\(\s*;\s*offset\s*<\s*text\s*\.\s*size\s*\(\s*\)\s*;[^)]*\)\s*\{", body)
+    if not lm:
+        raise AnalysisError("DecodeInteger: the digit loop was not recognised")
+    depth, i = 1, lm.end()
+    while i < len(body) and depth:
+        depth += {"{": 1, "}": -1}.get(body[i], 0)
+        i += 1
+    loop, before, after = body[lm.end():i - 1], body[:lm.start()], body[i:]
+    res.instances = 3
+    flags = re.findall(r"\bbool\s+(\w+)\s*=\s*false\s*;", before)
+    ok_flag = None
+    for fl in flags:
+        sets = [m_.start() for m_ in re.finditer(r"\b" + fl + r"\s*=\s*true\s*;", loop)]
+        if not sets:
+            continue
+        last_ret = max([m_.start() for m_ in re.finditer(r"return\s+false\s*;", loop)] + [0])
+        cont = max([m_.start() for m_ in re.finditer(r"\bcontinue\s*;", loop)] + [0])
+        tested = re.search(r"if\s*\(\s*!\s*" + fl + r"\s*\)\s*(?:\{\s*)?return\s+false\s*;", after)
+        store = re.search(r"\*\s*result\s*=", after)
+        if all(s_ > last_ret and s_ > cont for s_ in sets) and tested and store and tested.start() < store.start():
+            ok_flag = fl
+    if ok_flag is None:
+        res.add(f"{TU}|DecodeInteger|digit-seen", "DecodeInteger can reach `*result = accumulator; return true;` without having consumed a "
+                "digit: the separator `_` is skipped with `continue`, so `0x_`, `0b_`, `-_` decode as 0 (UpdateFromText(\"{ a: 0x_ }\") "
+                "succeeds and zeroes the field)", TU, rd[0].line, "DecodeInteger")
+    um = re.search(r"if\s*\(\s*c\s*==\s*'_'\s*\)\s*\{(.*?)continue\s*;", loop, re.S)
+    if not um:
+        raise AnalysisError("DecodeInteger: the separator branch was not recognised")
+    lead = re.search(r"if\s*\(\s*offset\s*==\s*(.*?)\)\s*\{?\s*return\s+false", um.group(1), re.S)
+    if not lead or not re.search(r"negative|first|start|begin", lead.group(1)):
+        res.add(f"{TU}|DecodeInteger|leading-separator", "the leading-separator test compares the position with "
+                f"`{lead.group(1).strip() if lead else '?'}`: `_12` is rejected but `-_12` (separator right after the sign) decodes as -12",
+                TU, rd[0].line, "DecodeInteger")
+    res.analysed = [TU]
+    return res
